@@ -401,6 +401,11 @@ func dischargeAll(obls []*Obl, timeoutS, workers int) {
 	}
 }
 
+var retrying bool
+
+// noRetry: obligations listed as known findings (undecided by construction) are not re-run.
+var noRetry map[string]bool
+
 func dischargeUnits(obls []*Obl, timeoutS, workers int) {
 	var wg sync.WaitGroup
 	ch := make(chan *Obl)
@@ -418,6 +423,29 @@ func dischargeUnits(obls []*Obl, timeoutS, workers int) {
 	}
 	close(ch)
 	wg.Wait()
+	// Second chance for undecided units (every solver timed out or said unknown): on a loaded
+	// or slower machine a query that normally takes a second can exceed the per-query limit,
+	// and an undecided obligation must not become an alarm for that reason. They are re-run a
+	// few at a time with four times the limit. A refuted ("sat") unit is never re-run.
+	var again []*Obl
+	for _, o := range obls {
+		if o.Status == "unknown" && !strings.HasPrefix(o.Detail, "VC too large") && !noRetry[baseName(o.Name)] {
+			again = append(again, o)
+		}
+	}
+	if len(again) == 0 || len(again) > 32 || retrying {
+		return
+	}
+	retrying = true
+	w2 := workers / 4
+	if w2 < 1 {
+		w2 = 1
+	}
+	for _, o := range again {
+		o.Retried = true
+	}
+	dischargeUnits(again, timeoutS*4, w2)
+	retrying = false
 }
 
 func hasTag(o *Obl, tag string) bool {
